@@ -146,7 +146,7 @@ Fixpoint multiply_loop (self other : tp) (idd : dict bool) (conv : dict mexp)
             if (io' : bool) then do res <- multiply_loop r other idd conv ;
                                  Ok ((s, o) :: fst (fst res), snd (fst res), snd res)
             else
-              let lab := o ++ "_mult_" ++ o' in
+              let lab := (o ++ "_mult_") ++ o' in
               do v <- lookup o conv ;
               do v' <- lookup o' conv ;
               do res <- multiply_loop r other idd (dset lab (MMul v v') conv) ;
